@@ -598,6 +598,14 @@ KINDS = {
                             {"t": "item", "c": 4}],
                  [{"t": "zz"}, {"t": "tup", "c": [1]}, {"t": "st", "c": {}}, {"t": "tup"}]),
     "enum_unt": (R("Unt"), [None, 5, ["a", "b"], {"cc": "s"}], [True, ["a"], {"cc": 5}, {}]),
+    "enum_ext_tuple1": ({"oneOf": [
+        {"type": "string", "enum": ["U"]},
+        {"type": "object", "properties": {"V": {"type": "array", "items": [{"type": "integer"}], "minItems": 1,
+                                                "maxItems": 1}}, "required": ["V"], "additionalProperties": False}]},
+        ["U", {"V": [3]}], [{"V": [1, 2]}, {"V": ["s"]}]),
+    "enum_unt_tuple1": ({"oneOf": [{"type": "string"},
+                                   {"type": "array", "items": [{"type": "integer"}], "minItems": 1, "maxItems": 1}]},
+                        ["s", [3]], [[1, 2], 5]),
     "alias_u8": (R("U8"), [7, 0], [300, -1, "x"]),
     "alias_nz": (R("NZ"), [3], [0]),
     "alias_str": (R("S"), ["s"], [5]),
@@ -905,7 +913,7 @@ def run_k5(ctx, cases, name=None):
 
 
 # ------------------------------------------------------------------ classification of violations
-FLAG_NAMES = ["unit", "tuple1", "intoob", "nz0", "flit", "native", "fill", "emptyctor"]
+FLAG_NAMES = ["unit", "tuple1", "intoob", "nz0", "flit", "native", "fill", "emptyctor", "tuple1var"]
 
 
 def default_site(rec, gen):
@@ -976,6 +984,8 @@ def classify(rec, gen, flags):
     ents = gen["dump"]["entries"]
     # classes F1-F6 and F8 are FIXED (findings/C06.json "fixed"): they are deliberately not recognised here, so a
     # reproduction is reported as a VIOLATION
+    if fl["tuple1var"] and kinds <= {"uncompilable", "builder-chunk-uncompilable"} and rec["valid"]:
+        return "C06-F13"
     if fl["native"] and kinds == {"runtime-panic"} and not rec["valid"]:
         return "C06-F7"
     if kinds <= {"realised-invalid", "invalid-accepted"} and not rec["valid"]:
@@ -1023,6 +1033,7 @@ THEOREMS = [
     "C06_integer_default_fits",
     "C06_unit_null_optional",
     "C06_default_typed_partial",
+    "C06_default_typed_tuple1_variant_refuted",
     "C06_default_exact_partial",
     "C06_regression_examples",
 ]
